@@ -128,17 +128,20 @@ pub fn is_euclidean<T: DSym>(ds: &T) -> Euclidean {
         fail("orbifold invariants do not match")
     } else if let Some(cov) = pseudo_toroidal_cover(ds) {
         if let Some(simp) = simplify(&cov) {
+            if !simp.is_connected() {
+                // (canonical forms are only defined for connected symbols)
+                return if bad_connected_components(&simp) {
+                    fail("cover is a non-trivial connected sum")
+                } else {
+                    give_up("cover is a (potentially trivial) connected sum", simp)
+                };
+            }
+
             let simp = canonical(&simp);
             let key = canonical(&minimal_image(&simp));
 
             if key.to_string() == "<1.1:1 3:1,1,1,1:4,3,4>" {
                 Euclidean::Yes
-            } else if !simp.is_connected() {
-                if bad_connected_components(&simp) {
-                    fail("cover is a non-trivial connected sum")
-                } else {
-                    give_up("cover is a (potentially trivial) connected sum", simp)
-                }
             } else {
                 let fg = fundamental_group(&simp);
                 let invars = abelian_invariants(
